@@ -44,6 +44,12 @@ def canon_exc(e):
     cn = names[0]
     if 'UnexpectedInput' in names:
         out = {'error': cn, 'pos': getattr(e, 'pos_in_stream', None), 'line': getattr(e, 'line', None), 'column': getattr(e, 'column', None)}
+        th = getattr(e, 'token_history', None)
+        if th is not None:
+            try:
+                out['token_history'] = [canon(t, False) for t in th]
+            except TypeError:
+                out['token_history'] = repr(th)
         if cn == 'UnexpectedToken':
             out['token'] = canon(e.token, False)
             out['expected'] = sorted(e.expected) if e.expected is not None else None
@@ -230,12 +236,16 @@ def node(job):
         try:
             if do == 'build':
                 p = Lark(e.grammar, **opts)
+                if st.get('warm'):
+                    beh(p, e, probes, _lark_ns())       # the instance is USED before it is saved: lazily cached values are then serialised filled-in
                 with open(P['save'], 'wb') as f:
                     p.save(f)
                 Lark(e.grammar, cache=P['cache'], **opts)
                 if st.get('standalone', True):
                     from lark.tools.standalone import gen_standalone
                     q = Lark(e.grammar, **plain)                 # the generator cannot embed user objects; they are given at load time
+                    if st.get('warm') and not user:
+                        beh(q, e, probes, _lark_ns())
                     for key, comp in (('sa', False), ('sac', True)):
                         s = io.StringIO()
                         gen_standalone(q, out=s, compress=comp)
@@ -267,6 +277,12 @@ def node(job):
             elif do == 'load':
                 with open(P['save'], 'rb') as f:
                     p = Lark.load(f)
+                if st.get('warm') is False and st.get('resave'):
+                    # re-save BEFORE first use (the other order is the default)
+                    P2 = _paths(d, cfg, st.get('gen', 1) + 1)
+                    with open(P2['save'], 'wb') as f:
+                        p.save(f)
+                    st = dict(st, resave=False)
                 tr['%s:load.g%d' % (cfg, st.get('gen', 1))] = beh(p, e, probes, _lark_ns())
                 if st.get('resave'):
                     P2 = _paths(d, cfg, st.get('gen', 1) + 1)
